@@ -233,8 +233,10 @@ class CGen:
             out.append("union U0 u0;")
             out.append(f"short h0 = {ch.draw(1000, 'shortinit')};")
             out.append("unsigned char uc0 = 200;")
+            out.append("char fn0[] = __FILE__;")
             self.extras += ["EB", "EC", "r0.x", "r0.y", "r0.c", "ra[1].y",
-                            "u0.c[1]", "u0.i", "h0", "uc0"]
+                            "u0.c[1]", "u0.i", "h0", "uc0", "fn0[1]",
+                            "sizeof(__FILE__)"]
         if self.pointers:
             # data relocations: globals initialised with addresses
             for i, g in enumerate(self.globals_[: ch.draw(3, "nptr")]):
@@ -259,6 +261,13 @@ class CGen:
                 out.append(f'char s{i}[] = "{ch.pick(WORDS, "word")}";')
         nfun = 1 + ch.draw(2 if tiny else 4, "nfun")
         for i in range(nfun):
+            if i == 1 and self.profile == "rich" and \
+                    ch.chance(1, 3, "tailrec"):
+                # one self tail-recursive function (tail call optimisation)
+                name = f"{self.fn_prefix}t"
+                out.append(f"int {name}(int a, int b) {{ if (a <= 0) "
+                           f"{{ return b; }} return {name}(a - 1, b + a); }}")
+                self.funcs.append((name, 2))
             out += self.function(i)
             if self.pointers and ch.chance(1, 3, "mkfptr"):
                 name, n = self.funcs[-1]
@@ -292,7 +301,7 @@ def gen_project(ch, tag):
     decl = "".join(f"extern int lib{i}(int a, int b);\n" for i in used)
     calls = " + ".join(f"lib{i}(x, {i + 1})" for i in ch.perm(used, "callord"))
     main = decl + f"int entry{tag}(int x) {{ return {calls}; }}\n"
-    return main, members
+    return main, members, f"entry{tag}"
 
 
 def gen_c3_unit(ch, tag="m"):
